@@ -40,6 +40,10 @@ class CPreProcessor:
         self.counter = 0  # For the __COUNTER__ macro
         self._int_type = types.BasicType(types.BasicType.INT)
 
+        # Inside #if, all values have type intmax_t or uintmax_t:
+        self._intmax_type = types.BasicType(types.BasicType.LONGLONG)
+        self._uintmax_type = types.BasicType(types.BasicType.ULONGLONG)
+
         self.predefine_builtin_macros()
 
     def predefine_builtin_macros(self):
@@ -1032,10 +1036,23 @@ class CPreProcessor:
         ast_tree = self.parse_expression()
         return self._eval_tree(ast_tree)
 
+    INTMAX_BITS = 64
+
+    @staticmethod
+    def _c_div(x, y):
+        """Integer division, truncating towards zero."""
+        quotient = abs(x) // abs(y)
+        return -quotient if (x < 0) != (y < 0) else quotient
+
+    @staticmethod
+    def _c_mod(x, y):
+        """Remainder of the division truncating towards zero."""
+        return x - y * CPreProcessor._c_div(x, y)
+
     OP_MAP = {
         "*": (11, False, operator.mul),
-        "/": (11, False, operator.floordiv),
-        "%": (11, False, operator.mod),
+        "/": (11, False, _c_div.__func__),
+        "%": (11, False, _c_mod.__func__),
         "+": (10, False, operator.add),
         "-": (10, False, operator.sub),
         "<<": (9, False, operator.lshift),
@@ -1065,9 +1082,8 @@ class CPreProcessor:
         if token.typ in ["!", "-", "~"]:
             op = token.typ
             a = self.parse_expression(11)
-            lhs = expressions.UnaryOperator(
-                op, a, self._int_type, True, token.loc
-            )
+            typ = self._intmax_type if op == "!" else a.typ
+            lhs = expressions.UnaryOperator(op, a, typ, True, token.loc)
         elif token.typ == "+":
             lhs = self.parse_expression(11)
         elif token.typ == "(":
@@ -1091,15 +1107,30 @@ class CPreProcessor:
                 if self.verbose:
                     self.logger.warning('Attention: undefined "%s"', name)
                 lhs = 0
-            lhs = expressions.NumericLiteral(lhs, self._int_type, token.loc)
+            lhs = expressions.NumericLiteral(
+                lhs, self._intmax_type, token.loc
+            )
         elif token.typ == "NUMBER":
-            lhs, _ = cnum(token.val)
-            # TODO: check type specifier?
-            lhs = expressions.NumericLiteral(lhs, self._int_type, token.loc)
+            lhs, type_specifiers = cnum(token.val)
+            if lhs >= 2**self.INTMAX_BITS:
+                self.error(
+                    "Integer constant is too large for its type", loc=token.loc
+                )
+            # A constant has type uintmax_t when it has an unsigned suffix,
+            # or when its value does not fit in intmax_t.
+            if (
+                "unsigned" in type_specifiers
+                or lhs >= 2 ** (self.INTMAX_BITS - 1)
+            ):
+                typ = self._uintmax_type
+            else:
+                typ = self._intmax_type
+            lhs = expressions.NumericLiteral(lhs, typ, token.loc)
         elif token.typ == "CHAR":
             lhs, _ = charval(replace_escape_codes(token.val))
-            # TODO: check type specifier?
-            lhs = expressions.NumericLiteral(lhs, self._int_type, token.loc)
+            lhs = expressions.NumericLiteral(
+                lhs, self._intmax_type, token.loc
+            )
         else:
             raise NotImplementedError(token.val)
 
@@ -1133,12 +1164,19 @@ class CPreProcessor:
             if op in self.OP_MAP:
                 func = self.OP_MAP[op][2]
                 if func:
+                    if op in ["<", ">", "<=", ">=", "==", "!=", "&&", "||"]:
+                        typ = self._intmax_type
+                    elif op in ["<<", ">>"]:
+                        typ = lhs.typ
+                    else:
+                        typ = self._common_type(lhs, rhs)
                     lhs = expressions.BinaryOperator(
-                        lhs, op, rhs, self._int_type, True, token.loc
+                        lhs, op, rhs, typ, True, token.loc
                     )
                 elif op == "?":
+                    typ = self._common_type(middle, rhs)
                     lhs = expressions.TernaryOperator(
-                        lhs, op, middle, rhs, self._int_type, True, token.loc
+                        lhs, op, middle, rhs, typ, True, token.loc
                     )
                     # middle if lhs != 0 else rhs
                 else:  # pragma: no cover
@@ -1160,8 +1198,26 @@ class CPreProcessor:
         else:
             return False
 
+    def _common_type(self, a, b):
+        """Usual arithmetic conversions: unsigned if one operand is."""
+        if self._uintmax_type in (a.typ, b.typ):
+            return self._uintmax_type
+        else:
+            return self._intmax_type
+
+    def _convert(self, value, typ):
+        """Convert a value to intmax_t or uintmax_t (wrap around)."""
+        value &= 2**self.INTMAX_BITS - 1
+        if typ is not self._uintmax_type:
+            if value >= 2 ** (self.INTMAX_BITS - 1):
+                value -= 2**self.INTMAX_BITS
+        return value
+
     def _eval_tree(self, expr):
-        """Evaluate a parsed tree"""
+        """Evaluate a parsed tree
+
+        The value of each sub expression is of type intmax_t or uintmax_t.
+        """
         if isinstance(expr, expressions.NumericLiteral):
             value = expr.value
         elif isinstance(expr, expressions.UnaryOperator):
@@ -1189,7 +1245,23 @@ class CPreProcessor:
                 value = int(bool(value))
             else:
                 func = self.OP_MAP[expr.op][2]
-                value = func(self._eval_tree(expr.a), self._eval_tree(expr.b))
+                a = self._eval_tree(expr.a)
+                b = self._eval_tree(expr.b)
+                if expr.op in ["<<", ">>"]:
+                    if not 0 <= b < self.INTMAX_BITS:
+                        self.error(
+                            "Invalid shift count in #if", loc=expr.location
+                        )
+                else:
+                    # Bring both operands to their common type:
+                    typ = self._common_type(expr.a, expr.b)
+                    a = self._convert(a, typ)
+                    b = self._convert(b, typ)
+                    if expr.op in ["/", "%"] and b == 0:
+                        self.error(
+                            "Division by zero in #if", loc=expr.location
+                        )
+                value = func(a, b)
         elif isinstance(expr, expressions.TernaryOperator):
             value = self._eval_tree(expr.a)
             if value:
@@ -1198,7 +1270,7 @@ class CPreProcessor:
                 value = self._eval_tree(expr.c)
         else:  # pragma: no cover
             raise NotImplementedError(str(expr))
-        return value
+        return self._convert(value, expr.typ)
 
 
 class FileExpander:
